@@ -133,3 +133,106 @@ func (g *Gen) computeUncontained() {
 	}
 	g.uncontained = unc
 }
+
+// recoverObligations (C10): each deferred recover handler calls recover() on every path through it, and the function that
+// defers it registers it before executing anything that can panic.
+func (g *Gen) recoverObligations(prop string) []*Obligation {
+	var out []*Obligation
+	seenH := map[*ssa.Function]bool{}
+	for _, name := range g.fnames {
+		fn := g.funcs[name]
+		hs := deferredRecoverers(fn)
+		if len(hs) == 0 {
+			continue
+		}
+		// (a) registration at the very beginning of fn
+		o := &Obligation{Name: name + ".R.defer-first", Kind: "R", Props: []string{prop}, Func: name,
+			Clause: "the recover handler is deferred before any operation of " + name + " that can panic", Pos: g.fset.Position(fn.Pos()).String()}
+		ok, why := true, ""
+		seenDefer := false
+		for _, ins := range fn.Blocks[0].Instrs {
+			if d, isD := ins.(*ssa.Defer); isD {
+				var t *ssa.Function
+				switch v := d.Common().Value.(type) {
+				case *ssa.Function:
+					t = v
+				case *ssa.MakeClosure:
+					t = v.Fn.(*ssa.Function)
+				}
+				if t != nil && callsRecover(t) {
+					seenDefer = true
+					break
+				}
+				continue
+			}
+			switch x := ins.(type) {
+			case *ssa.Alloc, *ssa.Store, *ssa.MakeClosure, *ssa.DebugRef, *ssa.FieldAddr, *ssa.UnOp, *ssa.MakeInterface, *ssa.ChangeType, *ssa.Phi:
+			default:
+				ok, why = false, "an instruction that can panic precedes the defer: "+x.String()
+			}
+			if !ok {
+				break
+			}
+		}
+		if ok && !seenDefer {
+			ok, why = false, "the handler is not deferred in the entry block"
+		}
+		if ok {
+			o.Static = "holds"
+		} else {
+			o.Static, o.Result = "fails: "+why, "failed"
+		}
+		out = append(out, o)
+		// (b) the handler itself
+		for _, h := range hs {
+			if seenH[h] {
+				continue
+			}
+			seenH[h] = true
+			hn := canonName(h)
+			o := &Obligation{Name: hn + ".R.recovers-on-every-path", Kind: "R", Props: []string{prop}, Func: hn,
+				Clause: "every path through the handler calls recover() (a handler that returns early leaves the panic in flight)", Pos: g.fset.Position(h.Pos()).String()}
+			var rb *ssa.BasicBlock
+			for _, b := range h.Blocks {
+				for _, ins := range b.Instrs {
+					if c, isC := ins.(*ssa.Call); isC {
+						if bi, isB := c.Common().Value.(*ssa.Builtin); isB && bi.Name() == "recover" {
+							rb = b
+						}
+					}
+				}
+			}
+			good := rb != nil
+			if good {
+				for _, b := range h.Blocks {
+					if _, isRet := b.Instrs[len(b.Instrs)-1].(*ssa.Return); isRet && !rb.Dominates(b) {
+						good = false
+					}
+				}
+			}
+			// nothing that can panic before the recover call
+			if good {
+				for _, b := range h.Blocks {
+					if b != rb && !b.Dominates(rb) {
+						continue
+					}
+					for _, ins := range b.Instrs {
+						if c, isC := ins.(*ssa.Call); isC {
+							if bi, isB := c.Common().Value.(*ssa.Builtin); isB && bi.Name() == "recover" {
+								break
+							}
+							good = false
+						}
+					}
+				}
+			}
+			if good {
+				o.Static = "holds"
+			} else {
+				o.Static, o.Result = "fails: some path through "+hn+" returns without calling recover(), or calls something before it", "failed"
+			}
+			out = append(out, o)
+		}
+	}
+	return out
+}
